@@ -146,6 +146,19 @@ func NewComplexRule(base, pattern, to string, ext []string, matcher httpserver.R
 		}
 	}
 
+	// Path.Matches compares the request path with the cleaned base ("/a//b"
+	// matches a request for "/a/b"); keep the rule's own idea of the base
+	// (BasePath, the offset at which the regexp starts) in line with that,
+	// otherwise a matching path can be shorter than the base as written and
+	// regexpMatches slices beyond its end.
+	if base != "" {
+		cleaned := path.Clean(base)
+		if strings.HasSuffix(base, "/") && !strings.HasSuffix(cleaned, "/") {
+			cleaned += "/"
+		}
+		base = cleaned
+	}
+
 	// use both IfMatcher and PathMatcher
 	matcher = httpserver.MergeRequestMatchers(
 		// If condition matcher
